@@ -50,6 +50,9 @@ Judge(i) ==
       \* the slice decode and the reader decode themselves, judged for their own properties (a wrong checksum on the
       \* reader path is C03's whether or not the slice path agrees)
       own == Diff(ev.plain, ev.bytes) \cup (IF ev.hard = 0 /\ "ok" \in DOMAIN ev.out /\ ev.out.ok \in {0, 1} THEN Diff(ev.out, ev.bytes) ELSE {})
+             \* a decode that consumed the wrong number of bytes still reported a checksum for the frame: judged as such
+             \cup (IF ev.hard = 0 /\ "ok" \in DOMAIN ev.out /\ ev.out.ok = 4 /\ Expect(ev.bytes).ok = 1 /\ ev.out.crc # Expect(ev.bytes).crc
+                   THEN {"crc"} ELSE {})
   IN /\ (IF d = {} THEN TRUE ELSE PrintT(<<"VERDICT", i, "reader|" \o ev.tag \o "|" \o Class(ev.bytes), {<<"C19", f>> : f \in d}>>))
      /\ (IF own = {} THEN TRUE ELSE PrintT(<<"VERDICT", i, Class(ev.bytes), {<<Owner(f), f>> : f \in own}>>))
      /\ (IF Drift(ev) THEN PrintT(<<"INFO", "MODEL-DRIFT", i, ev.tag>>) ELSE TRUE)
